@@ -247,6 +247,10 @@ fn judge(case: &CliCase, run: &CliRun, refo: &Outcome, reflog: &[crate::job::Log
     };
     let ctxs = |what: &str| format!("{}\nargv={:?} plan={:?}\nexit={:?} signal={:?}\nstdout={:?}\nstderr={:?}\noutfile={:?}\nreference={}", what, case.argv, case.plan, run.exit, run.signal, lossy(&run.stdout), lossy(&run.stderr), run.outfile.as_ref().map(|b| lossy(b)), refo.brief());
     let exit_ok = run.exit == Some(0);
+    if let Some(sig) = run.signal {
+        // "exits non-zero and prints the rendered error": a crash (panic=abort, SIGSEGV) is neither
+        return Some((format!("cli-crash(signal {})", sig), ctxs("the binary was killed by a signal instead of reporting an error")));
+    }
     if hard.is_empty() {
         // fault-free or benign faults only: must mirror the library exactly
         match refo {
@@ -513,14 +517,25 @@ fn fault_plans(case: &CliCase, base: &CliRun) -> Vec<String> {
             ("write", _) if is_out => vec!["EINTR", "short1", "short4", "ENOSPC", "EIO"],
             ("open", _) if is_entry => vec!["EINTR", "ENOENT", "EACCES", "EMFILE", "EISDIR"],
             ("open", _) if is_out => vec!["EINTR", "EACCES", "ENOSPC", "EISDIR"],
+            // files reached through @import from a load path: the library reads them through StdFs
+            ("read", cls) if cls.ends_with("_lib.scss") || cls.ends_with("_only.scss") => vec!["EINTR", "short3", "EIO"],
+            ("open", cls) if cls.ends_with("_lib.scss") || cls.ends_with("_only.scss") => vec!["EINTR", "EACCES", "EMFILE"],
             _ => vec![],
         };
         // stderr is written in many tiny pieces: fault only the first few
         if c.class == "fd2" && c.nth > 2 {
             continue;
         }
+        // imported files are opened by their canonical (absolute) path, which contains the
+        // name of the scratch directory: address them by suffix
+        let cls = if c.class.ends_with("_lib.scss") || c.class.ends_with("_only.scss") {
+            let parts: Vec<&str> = c.class.rsplit('/').take(2).collect();
+            format!("@*{}/{}", parts.get(1).copied().unwrap_or(""), parts.first().copied().unwrap_or(""))
+        } else {
+            c.class.clone()
+        };
         for a in acts {
-            out.push(format!("{}:{}:{}:{}", c.call, c.class, c.nth, a));
+            out.push(format!("{}:{}:{}:{}", c.call, cls, c.nth, a));
         }
     }
     out
